@@ -451,13 +451,15 @@ def user_pit(spec, rng):
     partition), frozen where the tensor is tied to a network input/output.  Excluded layers stay nn layers."""
     from . import c09 as C
     spec['autoconvert'] = False
+    ex = [i for i in range(len(spec['nodes'])) if excluded(spec, i)]
+    spec.pop('exclude_names', None)
+    for i, nd in enumerate(spec['nodes']):
+        if nd['k'] in ('conv1d', 'conv2d', 'linear') and i not in ex:
+            nd['pit'] = 0
     part = C.ref_partition(spec)
     for i, nd in enumerate(spec['nodes']):
-        if nd['k'] in ('conv1d', 'conv2d', 'linear') and not excluded(spec, i) and part.get(i) is not None:
-            cls, frozen = part[i]
-            nd['pit'] = cls
-            nd['pit_frozen'] = frozen
-    spec.pop('exclude_names', None)
+        if nd.get('pit') is not None:
+            nd['pit'], nd['pit_frozen'] = part[i]
 
 
 def describe(spec):
